@@ -1,4 +1,7 @@
 """C03 -- unsubscribing silences the subscriber and frees its sources (same machinery as C02, with a dispose at a random instant of EVERY case).
+Further dispose points (oracle-only unless said otherwise): harness/relcases.py (dispose before the same-instant
+events / before the first event -- also against the machines --, dispose from inside the k-th on_next, sources
+emitting inside subscribe(), compositions) and harness/c03_producers.py (the library's producers on virtual time).
 
 Theorems: Props/C02.v (runner, every machine, every input sequence).  Tie: the
 unsubscribe INSTANTS of the implementation equal the runner's, operator by
@@ -7,11 +10,15 @@ single-source operator of the C05/C06 tables run through `lift`.  Oracle: on the
 implementation's own boundary log, once the subscriber saw a terminal, every
 source that was subscribed has been unsubscribed (at that instant) and nothing
 is subscribed afterwards."""
+import random
+
 import comb_oracle
 import comb_table
 import k2
 import k2m
 import lib
+import c03_producers
+import relcases
 from props import C05, C06
 
 IMPORTS = ("Base.Prelude Base.CaseLib Ops.Machine Ops.Elementwise Ops.Aggregates Ops.Multi Ops.MultiCase "
@@ -122,19 +129,70 @@ def run(chk):
     nt_multi = chk.cov["distinct_nontrivial"]
     dist = chk.cov.get("input_distribution", {})
     nt, per_op = single_source(chk, dispose=True)
-    chk.cov["distinct_nontrivial"] = nt_multi + len(nt)
-    chk.cov["input_distribution"] = {"multi_source": dist, "single_source_per_operator": per_op}
+    # further dispose points (harness/relcases.py; own random stream, the cases above are unchanged by them)
+    rx = random.Random(f"C03-relcases-{chk.seed}")
+    q = chk.tier == "quick"
+    extra, nt_extra = {}, 0
+    for fam, n, opts, corr in [
+            # dispose ordered BEFORE the events of its instant / before the first event: also against the machines
+            ("prio", 20 if q else 300, dict(dispose="prio"), True),
+            # dispose() called by the subscriber from INSIDE its k-th on_next (oracle only)
+            ("inner", 60 if q else 800, dict(dispose="inner"), False),
+            ("inner_sync", 60 if q else 800, dict(dispose="inner", p_sync=1.0, sync_from=1, p_tail=0.15), False),
+            # sources emitting inside subscribe() / a composition with take(n)/first(), disposed between inputs
+            ("sync_dispose", 30 if q else 400, dict(p_sync=1.0, dispose="prio"), False),
+            ("tail_dispose", 30 if q else 400, dict(p_tail=1.0, p_sync=0.3, dispose="prio"), False)]:
+        extra[fam], s = relcases.multi_family(chk, "C03", fam, MULTI, n, opts, rx, correspond=corr)
+        nt_extra += len(s)
+    for fam, n, opts in [("single_inner", 12 if q else 150, dict(inner=True)),
+                         ("single_inner_sync", 8 if q else 100, dict(inner=True, sync=True))]:
+        extra[fam], s = relcases.single_family(chk, "C03", fam, n, opts, rx)
+        nt_extra += len(s)
+    # the library's own producers on a virtual-time scheduler (from_iterable's disposed flag, cancellation of
+    # scheduled work), disposed right after subscribe / at and between clock values / by a scheduled action ordered
+    # before or after the producer's work of that instant / inside the k-th on_next
+    extra["producers"], s = c03_producers.family(chk, "C03", 400 if q else 6000, rx)
+    nt_extra += len(s)
+    chk.cov["distinct_nontrivial"] = nt_multi + len(nt) + nt_extra
+    chk.cov["input_distribution"] = {"multi_source": dist, "single_source_per_operator": per_op,
+                                     "further_dispose_points": extra}
     chk.cov["rule"] = ("multi-source: as C10-C13 (seeded interleavings of hot sources incl. non-conforming tails and "
                        "dispose instants); single-source: every operator of the C05/C06 tables on seeded hot inputs, "
                        "run through `lift`; non-trivial = distinct cases in which a source was subscribed and "
-                       "released and the oracle held")
+                       "released and the oracle held.  Further dispose points (harness/relcases.py, one seed per case): "
+                       "`prio` = the multi-source operators with the dispose at a random event instant ordered BEFORE "
+                       "(2/3) or after the events of that instant, or before the first event (also compared with the "
+                       "machines: the delivered input sequence has IDispose at that position); `inner` / `inner_sync` = "
+                       "dispose() called by the subscriber from INSIDE its k-th on_next, k drawn from the elements an "
+                       "undisturbed run delivers after subscribe() returned (half of the time one that arrives in a step "
+                       "in which a source was subscribed first), in `inner_sync` every source but the first delivers a "
+                       "prefix of its sequence (half: all of it, terminal included) inside subscribe() and 15% have a "
+                       "take(n)/first() stage appended; `sync_dispose` / `tail_dispose` = such sources / such a composition "
+                       "disposed between inputs; `single_inner(_sync)` = the same for every C05/C06 operator.  Judged "
+                       "(oracle only, by LOG POSITION): nothing is delivered, no callback spy fires (Table callbacks, "
+                       "mapper-made sources, effects of factories / lazy iterables) behind the position at which dispose() "
+                       "returned, no source is subscribed in a later step, and every source is closed when the step ends.  "
+                       "`producers` (harness/c03_producers.py) = from_iterable(spy iterator) / range / generate / "
+                       "generate_with_relative_time / timer / periodic timer / interval, optionally followed by map / filter "
+                       "/ take / scan with spy callbacks, subscribed with a TestScheduler and disposed right after "
+                       "subscribe(), at or between the clock values of an undisturbed run, by a scheduled action ordered "
+                       "before or after the producer's work of an instant, or inside the k-th on_next; judged: behind the "
+                       "log position at which dispose() returned no notification, no spy callback, no pull from the iterator")
     return chk.finish(trusted_extra=["runner assumption: an operator's disposable holds every subscription/timer it "
                                      "opened (Ops/Multi.v) -- this run compares unsubscribe instants operator by "
-                                     "operator", "harness/k2m.py, harness/k2.py drivers"],
+                                     "operator", "harness/k2m.py, harness/k2.py drivers",
+                                     "harness/relcases.py (oracle-only families; the in-callback dispose is NOT compared "
+                                     "with the machines: the runner has no input for a dispose in the middle of a step)"],
                       assumptions=["group/window observables handed to the subscriber (ref-counted release) are "
                                    "covered in C18/C19, time-based operators in C15-C17"])
 
 
 def replay(chk, path):
+    import json
+    d = json.load(open(path))
+    if c03_producers.is_replay(d):
+        return c03_producers.replay_main("C03", path)
+    if relcases.is_replay(d):
+        return relcases.replay_main("C03", path)
     print(open(path).read())
     return 1
